@@ -77,7 +77,7 @@ reg("C03", "c03", [("qp", "plain", 1)], "exploration",
     design_ref="4/C03")
 
 reg("C05", "c05", [("classify", "plain", 1)], "exploration",
-    rule=CONE_GEN + "[one feasible instance in five with equality constraints is homogeneous: h = 0 and b != 0 (standard-form LPs and their cone analogues), scaled by 1, 4 or 16.] only planted classes (strictly primal-dual feasible LPs and QPs with rank-deficient P allowed; "
+    rule=CONE_GEN + "[QPs: one in six without inequality constraints; P is passed with junk in its strict upper triangle; the reported primal/dual objective must lie in the weak-duality bracket of the returned point.] [one feasible instance in five with equality constraints is homogeneous: h = 0 and b != 0 (standard-form LPs and their cone analogues), scaled by 1, 4 or 16.] only planted classes (strictly primal-dual feasible LPs and QPs with rank-deficient P allowed; "
          "strict Farkas certificate with a dual feasible point; strictly improving ray with a primal feasible point), "
          "kept only when cond([G;A]) resp. cond([P;G;A]) <= 1e3 and rank(A)=p (SVD); each instance is solved through two "
          "presentations (conelp vs lp/socp/sdp wrapper, coneqp vs qp, dense/sparse) with the default KKT solver and "
@@ -112,8 +112,8 @@ reg("C08", "c08", [("kernels", "plain", 1)], "exploration",
     level_note="Trusts numpy and vlib/ref_cone.py; the Python fallbacks are obtained by an AST transform of the tree's misc.py.",
     design_ref="4/C08")
 
-reg("C07", "c07", [("direct", "plain", 5), ("scaling", "plain", 3), ("insolve", "plain", 3), ("restore", "plain", 5)], "exploration",
-    rule="[restore part: cpl/cp problems with steep exponential constraints and a 'q' block; an ArithmeticError is injected into every kktsolver call in turn; when the retry starts from an iterate (x, z) the KKT solver has seen before it must receive the same scaling W. direct part: the strict upper triangle of H holds junk.] direct: Hypothesis draws (G, A, optional H=BB', Df for mnl 0-3) satisfying the rank assumptions (SVD), dense or "
+reg("C07", "c07", [("direct", "plain", 4), ("scaling", "plain", 3), ("insolve", "plain", 3), ("restore", "plain", 4), ("patterns", "plain", 2)], "exploration",
+    rule="[patterns part: pure 'l' cone, 6-10 variables, sparse G with 2-3 entries per row plus -I, dense or sparse A, H absent or sparse diagonal, 1-3 scalings: kkt_ldl/chol2/chol/ldl2 against the dense reference and each other.] [restore part: cpl/cp problems with steep exponential constraints and a 'q' block; an ArithmeticError is injected into every kktsolver call in turn; when the retry starts from an iterate (x, z) the KKT solver has seen before it must receive the same scaling W. direct part: the strict upper triangle of H holds junk.] direct: Hypothesis draws (G, A, optional H=BB', Df for mnl 0-3) satisfying the rank assumptions (SVD), dense or "
          "sparse, and a history of 1-4 factor calls (each with its own W built from the definition, H, Df) with 1-2 "
          "right-hand sides each; every built-in solver applicable (ldl, ldl2, chol, chol2 for pure-'l', qr without H/mnl) "
          "runs the history on one factory; each solve is judged by the backward error of the documented block system "
@@ -194,7 +194,7 @@ reg("C04", "c04", [("nonlinear", "plain", 1)], "exploration",
     design_ref="4/C04")
 
 reg("C09", "c09", [("histories", "plain", 1)], "exploration",
-    rule="[every verdict must meet the effective feastol/abstol/reltol in the solver's own accuracy fields; for cp/cpl the start point returned by F() must be left untouched.] Hypothesis draws a history of 2-8 steps over all ten entry points (conelp, coneqp, lp, qp, socp, sdp, cpl, cp, gp, "
+    rule="[coneqp/qp calls without inequality constraints are generated as well.] [every verdict must meet the effective feastol/abstol/reltol in the solver's own accuracy fields; for cp/cpl the start point returned by F() must be left untouched.] Hypothesis draws a history of 2-8 steps over all ten entry points (conelp, coneqp, lp, qp, socp, sdp, cpl, cp, gp, "
          "op.solve), each call on its own generated problem: set/delete a key of the global solvers.options, call with or "
          "without a per-call options= dictionary (incl. the empty dictionary), call with an invalid option value (global or "
          "per-call), run 2-4 calls concurrently in threads (switch interval 1e-6), loose-vs-tight tolerance pair. Every "
@@ -231,7 +231,7 @@ reg("C11", "c11", [("expressions", "plain", 1)], "exploration",
     design_ref="4/C11")
 
 reg("C12", "c12", [("problems", "plain", 1)], "exploration",
-    rule="[kind 'simplex': x >= 0 and one equality sum(x) = total with a non-zero constant, no box: matrix form with h = 0, b != 0.] Hypothesis draws 1-3 variables (lengths 1-3), a convex or affine objective tree of length 1 and 0-3 constraints "
+    rule="[one problem in four uses ONE function object g = M*x_k in two constraints (x_k + g <= ., g <= .).] [kind 'simplex': x >= 0 and one equality sum(x) = total with a non-zero constant, no box: matrix form with h = 0, b != 0.] Hypothesis draws 1-3 variables (lengths 1-3), a convex or affine objective tree of length 1 and 0-3 constraints "
          "(convex tree <= rhs, concave tree >= rhs, affine tree == rhs, a constraint without variables; vector or scalar "
          "right-hand sides) from the C11 expression grammar (nested max/min/abs, sum of max, indexing, matrix coefficients, "
          "dense/sparse), with right-hand sides shifted so that a drawn point x0 is strictly feasible; variants: boxed "
@@ -252,7 +252,7 @@ reg("C12", "c12", [("problems", "plain", 1)], "exploration",
     design_ref="4/C12")
 
 reg("C14", "c14", [("roundtrip", "plain", 1), ("reader", "plain", 1)], "exploration",
-    rule="roundtrip: Hypothesis draws an LP in the modeling layer (1-3 variables of lengths 1-3 with distinct short or empty "
+    rule="[reader part: RHS and RANGES lines may carry two (row, value) pairs.] roundtrip: Hypothesis draws an LP in the modeling layer (1-3 variables of lengths 1-3 with distinct short or empty "
          "names, 1-4 constraints <=, >=, == with scalar / row / matrix coefficients, dense or sparse, vector or scalar "
          "right-hand sides, affine objective with constant, values with <= 6 significant digits in [1e-3, 1e4]); tofile, "
          "fromfile on a fresh op, then rows and columns are matched by their MPS labels and compared as affine maps; both "
@@ -271,7 +271,7 @@ reg("C14", "c14", [("roundtrip", "plain", 1), ("reader", "plain", 1)], "explorat
     design_ref="4/C14")
 
 reg("C15", "c15", [("ops", "plain", 3), ("histories", "plain", 1)], "exploration",
-    rule="ops: Hypothesis draws one operation on dense matrices of typecodes i/d/z and shapes 0..3 x 0..3 (small integers, "
+    rule="[block lists may contain sparse blocks.] ops: Hypothesis draws one operation on dense matrices of typecodes i/d/z and shapes 0..3 x 0..3 (small integers, "
          "dyadic floats, Gaussian half-integers, so arithmetic is exact): construction from a number / sequence / matrix "
          "(with size and tc) / nested block-column lists, 1- and 2-argument indexing and indexed assignment with int, "
          "negative int, slice (all step signs, out-of-range bounds), list and integer-matrix keys (in and out of range) "
@@ -382,7 +382,7 @@ reg("C19", "c19", [("blas_box", "plain", 4), ("lapack_box", "plain", 4), ("base_
     design_ref="4/C19")
 
 reg("C20", "c20", [("roundtrip", "plain", 6), ("histories", "asan", 10)], "exploration",
-    rule="roundtrip: Hypothesis draws a dense ('i','d','z') or sparse ('d','z') matrix of size 0..4 x 0..4 with special values "
+    rule="[in-place operators in histories also take matrix operands.] roundtrip: Hypothesis draws a dense ('i','d','z') or sparse ('d','z') matrix of size 0..4 x 0..4 with special values "
          "(-0.0, nan, +-inf, 1e308, 5e-324, +-2^63) and explicit zeros, and one of 15 ways of copying it (pickle protocols "
          "0-5, pickle to a file, copy, deepcopy, deepcopy inside a container, matrix(x)/spmatrix(V,I,J), +x, x[:,:], "
          "tofile/fromfile, rebuilt from pickled triplets), or a buffer source (numpy arrays of 11 dtypes, 0-3 dimensions, "
